@@ -9,7 +9,8 @@
    quantified here. *)
 From Coq Require Import List ZArith Bool String Permutation.
 From Verif Require Import Base.Prelude Base.Str Base.Float Base.GoVal Schema.Regex Schema.Units
-  Schema.Syntax Schema.Ops Schema.Compat Proofs.Compat Proofs.CompatOrder Proofs.CompatSound.
+  Schema.Syntax Schema.Ops Schema.Compat Schema.Cbor Schema.Describe Proofs.Compat Proofs.CompatOrder Proofs.CompatSound
+  Proofs.C09Behaviour Proofs.C15Rebuilt.
 Import ListNotations.
 Open Scope Z_scope.
 
@@ -67,11 +68,97 @@ Theorem C15_reflexive_empty_range_refuted : forall words pu e fuel,
 Proof. exact empty_range_not_reflexive. Qed.
 Print Assumptions C15_reflexive_empty_range_refuted.
 
-(* (2'') "compatible with a schema rebuilt from its own description" (C15_reflexive_rebuilt) needs
-   the rebuild model of C09; it is checked directly on the SDK (family c15rebuilt) and left for
-   integration:
-     forall s, c15_wf n e s = true -> compat_schema fuel e s e (rebuild (describe s)) = Ok tt /\
-                                      compat_schema fuel e (rebuild (describe s)) e s = Ok tt. *)
+(* (2'') "... and with a schema rebuilt from its own description".  `rebuild` / `describe` / `describable` /
+   `link_ok` / `erase` are the model of SelfSerialize / UnserializeScope of C09 (Schema/Describe.v).  For EVERY
+   scope s that can be described (describable, its pattern sources compile to their parsed forms, it links),
+   is well-formed within n levels and has no empty range: UnserializeScope(SelfSerialize(s)) returns a schema
+   s', and for every fuel >= n (the explicit bound of C15_reflexive) s accepts s', s' accepts s, and s' accepts
+   itself.  All recorded library behaviour (boolean words, unit parser, character units, regexp.Compile, json)
+   is universally quantified. *)
+Theorem C15_reflexive_rebuilt :
+  forall (words : list (string * bool)) (pu : units -> string -> option fl) (cu : units)
+         (rp : string -> option re) (jor : oracles) n fuel e os root,
+  let s := SScope os root in
+  describable s = true ->
+  (forall p, In p (pats_of s) -> rp (fst p) = Some (snd p)) ->
+  link_ok jor [] s = true ->
+  c15_wf n e s = true -> (n <= fuel)%nat ->
+  exists s', rebuild words pu cu rp jor (describe s) = Ok s'
+             /\ compat_schema words pu fuel e s e s' = Ok tt
+             /\ compat_schema words pu fuel e s' e s = Ok tt
+             /\ compat_schema words pu fuel e s' e s' = Ok tt.
+Proof. exact compat_reflexive_rebuilt. Qed.
+Print Assumptions C15_reflexive_rebuilt.
+
+(* the same when the description travelled as CBOR, as it does in the ATP hello message (`cbor_norm k`: what
+   fxamacker/cbor encode + decode into `any` makes of it, Schema/Cbor.v; any depth k) *)
+Theorem C15_reflexive_rebuilt_cbor :
+  forall (words : list (string * bool)) (pu : units -> string -> option fl) (cu : units)
+         (rp : string -> option re) (jor : oracles) k n fuel e os root,
+  let s := SScope os root in
+  describable s = true ->
+  (forall p, In p (pats_of s) -> rp (fst p) = Some (snd p)) ->
+  link_ok jor [] s = true ->
+  c15_wf n e s = true -> (n <= fuel)%nat ->
+  exists s', rebuild words pu cu rp jor (cbor_norm k (describe s)) = Ok s'
+             /\ compat_schema words pu fuel e s e s' = Ok tt
+             /\ compat_schema words pu fuel e s' e s = Ok tt
+             /\ compat_schema words pu fuel e s' e s' = Ok tt.
+Proof. exact compat_reflexive_rebuilt_cbor. Qed.
+Print Assumptions C15_reflexive_rebuilt_cbor.
+
+(* the reason: ValidateCompatibility does not see what a description cannot carry (`erase`:
+   TreatEmptyAsDefaultValue; a typed string enum is not describable at all, D69).  For EVERY pair of
+   schemas, EVERY pair of environments and EVERY fuel, erasing the receiver, the argument, or both (each in
+   its erased environment) leaves the outcome - verdict, error class and path, Panic, OutOfFuel - unchanged. *)
+Theorem C15_erase_invisible : forall words pu fuel e1 s e2 t,
+  compat_schema words pu fuel e1 (erase s) e2 t = compat_schema words pu fuel e1 s e2 t
+  /\ compat_schema words pu fuel e1 s e2 (erase t) = compat_schema words pu fuel e1 s e2 t
+  /\ compat_schema words pu fuel (erase_env e1) (erase s) (erase_env e2) (erase t) = compat_schema words pu fuel e1 s e2 t.
+Proof. exact compat_schema_erase_all. Qed.
+Print Assumptions C15_erase_invisible.
+
+(* hence the rebuilt schema can replace the original on either side of ANY compatibility check - no
+   well-formedness needed, recursive schemas and empty ranges included (same outcome, whatever it is) *)
+Theorem C15_rebuilt_interchangeable :
+  forall (words : list (string * bool)) (pu : units -> string -> option fl) (cu : units)
+         (rp : string -> option re) (jor : oracles) os root,
+  let s := SScope os root in
+  describable s = true ->
+  (forall p, In p (pats_of s) -> rp (fst p) = Some (snd p)) ->
+  link_ok jor [] s = true ->
+  exists s', rebuild words pu cu rp jor (describe s) = Ok s'
+             /\ forall fuel e1 e2 t,
+                  compat_schema words pu fuel e1 s' e2 t = compat_schema words pu fuel e1 s e2 t
+                  /\ compat_schema words pu fuel e1 t e2 s' = compat_schema words pu fuel e1 t e2 s.
+Proof. exact compat_rebuilt_interchangeable. Qed.
+Print Assumptions C15_rebuilt_interchangeable.
+
+(* well-formedness is itself preserved: the rebuilt schema satisfies the hypothesis of C15_reflexive *)
+Theorem C15_wf_erase : forall n e s, c15_wf n (erase_env e) (erase s) = c15_wf n e s.
+Proof. exact c15_wf_erase. Qed.
+Print Assumptions C15_wf_erase.
+
+(* non-vacuity: a scope with every kind of type, references, a one-of, a nested scope, a default, and five
+   properties with TreatEmptyAsDefaultValue satisfies all hypotheses (n = 6); its rebuild differs from it (the
+   flag is gone), is exactly what `rebuild` computes, and the verdicts are Ok *)
+Example C15_reflexive_rebuilt_hypotheses :
+  let e := c15_env0 c15r_jor in
+  describable c15r_scope = true /\ link_ok c15r_jor [] c15r_scope = true
+  /\ forallb (fun p => match c15r_rp (fst p) with Some r => true | None => false end) (pats_of c15r_scope) = true
+  /\ c15_wf 6 e c15r_scope = true.
+Proof. exact c15r_hypotheses. Qed.
+Example C15_reflexive_rebuilt_nonvacuous :
+  let e := c15_env0 c15r_jor in
+  match rebuild c15r_words c15r_pu c15r_cu c15r_rp c15r_jor (describe c15r_scope) with
+  | Ok s' =>
+      s' = erase c15r_scope
+      /\ (if schema_differs s' c15r_scope then True else False)
+      /\ compat_schema c15r_words c15r_pu 6 e c15r_scope e s' = Ok tt
+      /\ compat_schema c15r_words c15r_pu 6 e s' e c15r_scope = Ok tt
+  | _ => False
+  end.
+Proof. exact c15r_instance. Qed.
 
 (* (3) The behaviour before the fixes (kept as definitions in Schema/Compat.v), each a violation of
    the property with a concrete witness. *)
